@@ -83,8 +83,16 @@ func factsC18() {
 				}
 			}
 		}
+		if len(atoms) == 0 { // the repaired basicType(): a slice of names, each matched as Token(name+`\b`)
+			for _, l := range stringLits(rel, "", "basicType") {
+				if l != "" && !strings.Contains(l, `\b`) {
+					atoms = append(atoms, l)
+				}
+			}
+		}
 		emitStrList("f_idl_basic_atoms", atoms)
 	}
+	emitStr("f_idl_basicType_text", normText(rel, "", "basicType"))
 	emitStrList("f_idl_commentContent_lits", stringLits(rel, "", "nodifyCommentContent"))
 	emitStr("f_idl_ParsePackage_text", normText(rel, "", "ParsePackage"))
 	emitStr("f_idl_nodifyActionList_text", normText(rel, "", "nodifyActionList"))
